@@ -34,10 +34,12 @@ PlaceType(base, p) == CASE p \in {"id", "paren"} -> base
                         [] p \in {"fld", "chain", "arrfld", "parenfld", "idx"} -> "int"
                         [] p = "inner" -> "Q"
 
-Forms == {"assign", "compound", "inc", "dec", "borrow", "pass", "method"}
+Forms == {"assign", "compound", "inc", "dec", "borrow", "pass", "method", "fnslot"}
+(* fnslot: the place is handed to a function VALUE whose static type promises &T while the function bound to it
+   takes &'T and writes through it *)
 Mutates(f) == f \in Forms
-FormOK(t, f) == CASE t = "int" -> f \in {"assign", "compound", "inc", "dec", "borrow", "pass"}
-                  [] t \in {"P", "Q"} -> f \in {"assign", "borrow", "pass", "method"}
+FormOK(t, f) == CASE t = "int" -> f \in {"assign", "compound", "inc", "dec", "borrow", "pass", "fnslot"}
+                  [] t \in {"P", "Q"} -> f \in {"assign", "borrow", "pass", "method", "fnslot"}
                   [] t = "arr" -> f \in {"assign", "borrow"}
                   [] t = "str" -> f \in {"assign", "borrow", "pass"}
 
